@@ -536,6 +536,10 @@ func (g *Gen) blockItem(bl *BlockSpec, depth int, pathPrefix string) *Item {
 		if !bl.Labels[i].DepKey && g.chance(0.7) {
 			v = fmt.Sprintf("%s%d", v, g.uniq)
 		}
+		if !bl.Labels[i].DepKey && g.P.Odd && !g.P.JSONTwin && g.chance(0.06) {
+			// labels that need escaping when written or shown
+			v = g.pick([]string{"say \"hi\"", "C:\\temp", "tab\there"}) + fmt.Sprint(g.uniq)
+		}
 		bi.Labels = append(bi.Labels, v)
 	}
 	if g.chance(g.P.Violations * 0.5) {
